@@ -217,8 +217,11 @@ func loadPatchVariants(verif, prop string) []patchVariant {
 	var out []patchVariant
 	// seeded mutants of this property
 	dirs, _ := filepath.Glob(filepath.Join(verif, "seeded", prop+"-*"))
+	// mutants whose demonstration cannot be executed in this sandbox (cgo): kept apart, still must be reported
+	more, _ := filepath.Glob(filepath.Join(verif, "seeded-unexecuted", prop+"-*"))
+	dirs = append(dirs, more...)
 	for _, d := range dirs {
-		pv := patchVariant{Name: "seeded/" + filepath.Base(d), Path: filepath.Join(d, "patch.diff"), Expect: "detected"}
+		pv := patchVariant{Name: filepath.Base(filepath.Dir(d)) + "/" + filepath.Base(d), Path: filepath.Join(d, "patch.diff"), Expect: "detected"}
 		if b, err := os.ReadFile(filepath.Join(d, "meta.json")); err == nil {
 			var m struct {
 				Expected string `json:"expected_by_static_check"`
